@@ -20,8 +20,10 @@ so, by C01's completeness theorem on the weak state invariant (`Props.C01.runRow
 batch of well-typed values whose explicit size `Σ vsize (ser t v)` stays within `2^31 - 1` is accepted row by row:
 `runRows … = ok root` — and `build_arrays` cannot refuse (`Props.C01.toMarrow_complete'`, i.e. `finish_totalH`; its typing
 hypothesis `typedFs` holds of every traced schema, `Props.C03.fromType_good`), so `to_marrow` succeeds (`C04_accept_traced`).  `from_type` itself succeeds on every walkable,
-mappable type within the pass budget (`C04_fromType_ok`): `C04_accept`, `C04_end_to_end_partial` have no hypothesis about
-its result.
+mappable type within the pass budget (`C04_fromType_ok`): `C04_accept`, `C04_end_to_end` have no hypothesis about
+its result — and none about `ext` (the external float printers / chrono / decimal parsers): the former residual hypothesis
+`hext : ExtOK ext` is gone, a traced schema has no temporal column and the chrono parsers are never consulted
+(`toMarrow_refuse_traced`, SaModel/Lemmas/C04Ext*.lean).
 -/
 namespace SaModel.Props.C04
 open SaModel SaModel.Build SaModel.Spec SaModel.Roundtrip
@@ -115,36 +117,35 @@ theorem length_of_cap (ext : Ext) (t : Ty) (vs : List Val)
 
 /-- **C04 end to end against a traced schema**: serialization against the schema `from_type` returned succeeds, and reading
 everything back returns the batch, normalised (`norm` is the identity for `plainOpt` types: `C04_norm_eq_self`).  The
-conclusion no longer has a premise about the arrays: `Read.physical` is derived from `hcap` (`C04_physical`).  `_partial`
-because of `hext` only. -/
-theorem C04_end_to_end_traced_partial (c : Trace.Code) (O : Trace.Options) (ext : Ext) (n : String) (fs : TFields) (vs : List Val)
+conclusion no longer has a premise about the arrays: `Read.physical` is derived from `hcap` (`C04_physical`).  For EVERY
+`ext` (no `ExtOK`: `C04_roundtrip_bulk`). -/
+theorem C04_end_to_end_traced (c : Trace.Code) (O : Trace.Options) (ext : Ext) (n : String) (fs : TFields) (vs : List Val)
     (fields : List Field)
     (h0 : O.overwrites = []) (hfrag : fragE (.struct n fs) = true) (hsz : sized (.struct n fs) = true) (hne : fs ≠ .nil)
     (hwt : ∀ v ∈ vs, wt (.struct n fs) v = true)
     (hsc : ∀ v ∈ vs, inScopeO (viewOpts O) (.struct n fs) v = true)
-    (hext : Lemmas.C03.ExtOK ext)
     (hft : Trace.fromType c O (toTraceTy (.struct n fs)) = .ok fields)
     (hcap : ((vs.map (ser (.struct n fs))).map (vsize ext)).sum ≤ 2147483647) :
     ∃ arrs, toMarrow ext fields (vs.map (ser (.struct n fs))) = .ok arrs ∧
       readAll (toTarget (.struct n fs)) fields arrs = .ok (vs.map fun v => dvalOf (.struct n fs) (norm (.struct n fs) v)) := by
   obtain ⟨arrs, htm⟩ := C04_accept_traced c O ext n fs vs fields h0 hfrag hsz hwt hsc hft hcap
   exact ⟨arrs, htm,
-    C04_roundtrip_bulk_partial c O ext n fs vs fields arrs h0 hfrag hne hwt hsc hext (length_of_cap ext _ vs hcap) hft htm⟩
+    C04_roundtrip_bulk c O ext n fs vs fields arrs h0 hfrag hne hwt hsc (length_of_cap ext _ vs hcap) hft htm⟩
 
 /-- **C04 end to end** — the property itself: for a record type of the grammar (enums included) with at least one field that
 can be walked and mapped within the pass budget, `from_type` returns a schema, serializing any batch of well-typed values in
 scope against it succeeds, and reading everything back returns the batch, normalised.
-`_partial`, exactly because of `hext` (the external chrono parsers return values in range: asked unconditionally by
-`Props.C01.C03_wfS'`, irrelevant for traced schemas, which have no temporal column; a theorem at the codec models:
-`C04_end_to_end_codec` below has NO residual hypothesis).  The former premise `hphys` of the conclusion (`Read.physical`: the
-value count of a Dictionary column fits `i64`) is gone: derived from `hcap` (`C04_physical`, the builders' counting invariant).
-Everything else is a decidable condition on type × options (`fragE`, `sized`, `walkable`, `mappable`;
+NO residual hypothesis, for EVERY `ext`.  The former `hext : ExtOK ext` (the external chrono parsers return values in range:
+asked unconditionally by `Props.C01.C03_wfS'`) is gone: traced schemas have no temporal column (`mapping_noTemporal`), so the
+parsers are never consulted and the run is the same under `refuseExt ext`, whose parsers refuse (`toMarrow_refuse_traced`,
+`refuseExt_ok`).  The former premise `hphys` of the conclusion (`Read.physical`: the value count of a Dictionary column fits
+`i64`) is gone: derived from `hcap` (`C04_physical`, the builders' counting invariant).
+Everything left is a decidable condition on type × options (`fragE`, `sized`, `walkable`, `mappable`;
 NO `Safe` / `safeFs`), the documented exclusion `inScopeO` on the values, the pass budget and the capacity bound. -/
-theorem C04_end_to_end_partial (c : Trace.Code) (O : Trace.Options) (ext : Ext) (n : String) (fs : TFields) (vs : List Val)
+theorem C04_end_to_end (c : Trace.Code) (O : Trace.Options) (ext : Ext) (n : String) (fs : TFields) (vs : List Val)
     (h0 : O.overwrites = []) (hfrag : fragE (.struct n fs) = true) (hsz : sized (.struct n fs) = true) (hne : fs ≠ .nil)
     (hwt : ∀ v ∈ vs, wt (.struct n fs) v = true)
     (hsc : ∀ v ∈ vs, inScopeO (viewOpts O) (.struct n fs) v = true)
-    (hext : Lemmas.C03.ExtOK ext)
     (hw : Trace.Spec.walkable O "$" (toTraceTy (.struct n fs)) = true)
     (hm : mappable (viewOpts O) (.struct n fs) = true)
     (hb : Trace.Spec.passes (toTraceTy (.struct n fs)) ≤ O.from_type_budget)
@@ -153,16 +154,16 @@ theorem C04_end_to_end_partial (c : Trace.Code) (O : Trace.Options) (ext : Ext) 
       toMarrow ext fields (vs.map (ser (.struct n fs))) = .ok arrs ∧
       readAll (toTarget (.struct n fs)) fields arrs = .ok (vs.map fun v => dvalOf (.struct n fs) (norm (.struct n fs) v)) := by
   have hft := C04_fromType_ok c O h0 n fs hw hm hb
-  obtain ⟨arrs, htm, hread⟩ := C04_end_to_end_traced_partial c O ext n fs vs _ h0 hfrag hsz hne hwt hsc hext hft hcap
+  obtain ⟨arrs, htm, hread⟩ := C04_end_to_end_traced c O ext n fs vs _ h0 hfrag hsz hne hwt hsc hft hcap
   exact ⟨_, arrs, hft, htm, hread⟩
 
-/-- **C04 end to end at the codec models — COMPLETE, every option**: with the external string parsers instantiated by the
-models of C14 (`Props.C16.codecExt`, what the correspondence driver runs), `ExtOK` is a theorem (`Props.C03.codecExt_ok`) and
-the hypothesis `hext` disappears; `Read.physical` is derived from `hcap`.  For every record type of the grammar (enums as
-Unions or — without data, under `enums_without_data_as_strings` — as dictionary-encoded strings; `string_dictionary_encoding`
+/-- **C04 end to end at the codec models — every option**: `C04_end_to_end` with the external string parsers instantiated by
+the models of C14 (`Props.C16.codecExt`, what the correspondence driver runs) — a direct corollary (the general theorem has no
+hypothesis about `ext` any more; formerly `ExtOK` was discharged here by `Props.C03.codecExt_ok`).  For every record type
+of the grammar (enums as Unions or — without data, under `enums_without_data_as_strings` — as dictionary-encoded strings; `string_dictionary_encoding`
 included) with at least one field that can be walked and mapped within the pass budget, `from_type` returns a schema,
 serializing any batch of well-typed values in scope (within the capacity bound) against it succeeds, and reading everything
-back returns the batch, normalised.  NO residual hypothesis (formerly `_partial` because of `hphys` in the conclusion). -/
+back returns the batch, normalised.  NO residual hypothesis. -/
 theorem C04_end_to_end_codec (f32Str f64Str : Nat → String) (cast : Nat → Int → Bool → Nat → Option (Bool × Int))
     (c : Trace.Code) (O : Trace.Options) (n : String) (fs : TFields) (vs : List Val)
     (h0 : O.overwrites = []) (hfrag : fragE (.struct n fs) = true) (hsz : sized (.struct n fs) = true) (hne : fs ≠ .nil)
@@ -175,15 +176,15 @@ theorem C04_end_to_end_codec (f32Str f64Str : Nat → String) (cast : Nat → In
     ∃ fields arrs, Trace.fromType c O (toTraceTy (.struct n fs)) = .ok fields ∧
       toMarrow (Props.C16.codecExt f32Str f64Str cast) fields (vs.map (ser (.struct n fs))) = .ok arrs ∧
       readAll (toTarget (.struct n fs)) fields arrs = .ok (vs.map fun v => dvalOf (.struct n fs) (norm (.struct n fs) v)) :=
-  C04_end_to_end_partial c O _ n fs vs h0 hfrag hsz hne hwt hsc (Props.C03.codecExt_ok f32Str f64Str cast) hw hm hb hcap
+  C04_end_to_end c O _ n fs vs h0 hfrag hsz hne hwt hsc hw hm hb hcap
 
 /-- **C04 end to end, COMPLETE, for traced schemas without Dictionary columns** (`string_dictionary_encoding` and
 `enums_without_data_as_strings` off — the defaults), at the codec models of the external parsers: for every record type of
 the grammar (enums as Unions included) with at least one field that can be walked and mapped within the pass budget,
 `from_type` returns a schema, serializing any batch of well-typed values in scope (within the capacity bound) against it
-succeeds, and reading everything back returns the batch, normalised.  NO residual hypothesis: `Read.physical` and
-`ExtOK` are derived (and `Safe` is not needed); what is left are decidable conditions on type × options (`fragE`, `sized`, `walkable`, `mappable`),
-the documented exclusion `inScopeO` (= the driver's `noneAtUnion`; `strOK` is vacuous here: no string-stored enum), the pass
+succeeds, and reading everything back returns the batch, normalised.  NO residual hypothesis: `Read.physical` is derived
+without the size bound (`C04_roundtrip_bulk_plain`; `ExtOK` and `Safe` are not needed); what is left are decidable
+conditions on type × options (`fragE`, `sized`, `walkable`, `mappable`), the documented exclusion `inScopeO` (= the driver's `noneAtUnion`; `strOK` is vacuous here: no string-stored enum), the pass
 budget and the explicit capacity bound. -/
 theorem C04_end_to_end_plain (f32Str f64Str : Nat → String) (cast : Nat → Int → Bool → Nat → Option (Bool × Int))
     (c : Trace.Code) (O : Trace.Options) (n : String) (fs : TFields) (vs : List Val)
@@ -200,8 +201,7 @@ theorem C04_end_to_end_plain (f32Str f64Str : Nat → String) (cast : Nat → In
       readAll (toTarget (.struct n fs)) fields arrs = .ok (vs.map fun v => dvalOf (.struct n fs) (norm (.struct n fs) v)) := by
   have hft := C04_fromType_ok c O h0 n fs hw hm hb
   obtain ⟨arrs, htm⟩ := C04_accept_traced c O (Props.C16.codecExt f32Str f64Str cast) n fs vs _ h0 hfrag hsz hwt hsc hft hcap
-  exact ⟨_, arrs, hft, htm, C04_roundtrip_bulk_plain_partial c O _ n fs vs _ arrs h0 hd he hfrag hne hwt hsc
-    (Props.C03.codecExt_ok f32Str f64Str cast) hft htm⟩
+  exact ⟨_, arrs, hft, htm, C04_roundtrip_bulk_plain c O _ n fs vs _ arrs h0 hd he hfrag hne hwt hsc hft htm⟩
 
 /-! ### non-vacuity: the batch of `Props/C04.lean` (`exFragRoot`, two records) meets every hypothesis -/
 
@@ -216,8 +216,8 @@ example : ∃ root, runRows {} exFields (exBatch.map (ser exFragRoot)) = .ok roo
 example : ∃ fields arrs, Trace.fromType .fixed exO (toTraceTy exFragRoot) = .ok fields ∧
     toMarrow {} fields (exBatch.map (ser exFragRoot)) = .ok arrs ∧
     readAll (toTarget exFragRoot) fields arrs = .ok (exBatch.map fun v => dvalOf exFragRoot (norm exFragRoot v)) :=
-  C04_end_to_end_partial .fixed exO {} "Root" _ exBatch rfl (by decide +kernel) (by decide +kernel) (by simp)
-    (by decide +kernel) (by decide +kernel) exExtOK (by decide +kernel) (by decide +kernel) (by decide +kernel) (by decide +kernel)
+  C04_end_to_end .fixed exO {} "Root" _ exBatch rfl (by decide +kernel) (by decide +kernel) (by simp)
+    (by decide +kernel) (by decide +kernel) (by decide +kernel) (by decide +kernel) (by decide +kernel) (by decide +kernel)
 
 /-! non-vacuity WITH ENUMS: `exRoot` of `Props/C04.lean` (an enum with all four variant kinds traced to a Union, nested
 Options, a map with tuple values), under `allow_null_fields`: walkable, mappable, 4 passes ≤ budget, `sized`, no Dictionary
@@ -230,8 +230,8 @@ example : fragE exRoot = true ∧ sized exRoot = true ∧ Trace.Spec.walkable ex
 example : ∃ fields arrs, Trace.fromType .fixed exEO (toTraceTy exRoot) = .ok fields ∧
     toMarrow {} fields (exEBatch.map (ser exRoot)) = .ok arrs ∧
     readAll (toTarget exRoot) fields arrs = .ok (exEBatch.map fun v => dvalOf exRoot (norm exRoot v)) :=
-  C04_end_to_end_partial .fixed exEO {} "Root" _ exEBatch rfl (by decide +kernel) (by decide +kernel) (by simp)
-    (by decide +kernel) (by decide +kernel) exExtOK (by decide +kernel) (by decide +kernel) (by decide +kernel) (by decide +kernel)
+  C04_end_to_end .fixed exEO {} "Root" _ exEBatch rfl (by decide +kernel) (by decide +kernel) (by simp)
+    (by decide +kernel) (by decide +kernel) (by decide +kernel) (by decide +kernel) (by decide +kernel) (by decide +kernel)
 
 /-- … and completely, with nothing assumed (codec parsers; the float / decimal tables of the codec record play no role for
 this type): `C04_end_to_end_plain` on the enum example -/
@@ -293,13 +293,13 @@ example : ∀ root0, newRoot exWFields = .ok root0 → ¬ Safe root0 := by
     (C04_fromType_fields .fixed exDO rfl "W" _ exWFields exWTrace) root0 h0).mp hs
   revert this; decide +kernel
 
-/-- acceptance (`C04_accept`) and the end-to-end theorem (`C04_end_to_end_partial`) apply to it, every hypothesis
+/-- acceptance (`C04_accept`) and the end-to-end theorem (`C04_end_to_end`) apply to it, every hypothesis
 discharged: the batch `None, Some(I { s: "x" }), None` is accepted against the traced schema (a DICTIONARY column outside
 `Safe`) and read back as it is — nothing is assumed about the arrays -/
 example : ∃ fields arrs, Trace.fromType .fixed exDO (toTraceTy exSafeFalse) = .ok fields ∧
     toMarrow {} fields (exWBatch.map (ser exSafeFalse)) = .ok arrs ∧
     readAll (toTarget exSafeFalse) fields arrs = .ok (exWBatch.map fun v => dvalOf exSafeFalse (norm exSafeFalse v)) :=
-  C04_end_to_end_partial .fixed exDO {} "W" _ exWBatch rfl (by decide +kernel) (by decide +kernel) (by simp)
-    (by decide +kernel) (by decide +kernel) exExtOK (by decide +kernel) (by decide +kernel) (by decide +kernel) (by decide +kernel)
+  C04_end_to_end .fixed exDO {} "W" _ exWBatch rfl (by decide +kernel) (by decide +kernel) (by simp)
+    (by decide +kernel) (by decide +kernel) (by decide +kernel) (by decide +kernel) (by decide +kernel) (by decide +kernel)
 
 end SaModel.Props.C04
